@@ -53,8 +53,8 @@ fn alpha(name: &str) -> Vec<MOp> {
 
 fn spaces(tier: Tier) -> Vec<(&'static str, u32)> {
     match tier {
-        Tier::Quick => vec![("MICRO", 2), ("MICRO", 3), ("SHARE", 2), ("CORE", 2), ("MICRO", 4), ("SHARE", 3), ("SAME", 2), ("SAME", 3), ("SELFX", 2), ("SELFX", 3), ("CORE", 3), ("MICRO", 5)],
-        Tier::Thorough => vec![("MICRO", 3), ("SHARE", 2), ("CORE", 2), ("MICRO", 4), ("SHARE", 3), ("SAME", 2), ("SAME", 3), ("SELFX", 2), ("SELFX", 3), ("CORE", 3), ("MICRO", 5), ("SHARE", 4), ("SAME", 4), ("SELFX", 4), ("MICRO", 6), ("CORE", 4)],
+        Tier::Quick => vec![("MICRO", 2), ("MICRO", 3), ("SHARE", 2), ("CORE", 2), ("MICRO", 4), ("SHARE", 3), ("SAME", 2), ("SAME", 3), ("SELFX", 2), ("SELFX", 3), ("QSYM", 4), ("CORE", 3), ("MICRO", 5)],
+        Tier::Thorough => vec![("MICRO", 3), ("SHARE", 2), ("CORE", 2), ("MICRO", 4), ("SHARE", 3), ("SAME", 2), ("SAME", 3), ("SELFX", 2), ("SELFX", 3), ("QSYM", 4), ("CORE", 3), ("MICRO", 5), ("SHARE", 4), ("SAME", 4), ("SELFX", 4), ("MICRO", 6), ("CORE", 4)],
     }
 }
 
